@@ -31,6 +31,10 @@ A program is a dict
                                      the locks are taken key by key in the given order; transactional tasks only)
        | ["commit"] | ["rollback"]   explicit `await tx.commit()` / `await tx.rollback()` on the `Transaction` object that the innermost
                                      enclosing `async with cache.transaction(...) as tx` returned (the body goes on afterwards)
+       | ["gc","obj",mode,timeout]  (environment event, not part of the model: an ABANDONED block on THE shared context object of (mode, timeout) -
+                  `async with T:` around an await in a coroutine / async generator that was started in a context of its own and then dropped -
+                  is finalised (`close()`, as `aclose()` from another task or the collector would) in yet another, empty context while this
+                  task runs and while other tasks may be suspended inside their own blocks on T; it must not affect anybody)
        | ["gc"]  (environment event, not part of the model: an abandoned call of the decorated function is finalised
                   while this task runs; it must not affect this task)
 Keys are small ints (store key "k<i>").  A run is a pure function of (init store, programs, schedule, cancels).
@@ -373,6 +377,8 @@ def execute(init: dict, programs: list[dict], schedule: list[int], snapshot=True
                 shared[key] = cache.transaction(getattr(TransactionMode, MODES[mode]), timeout=timeout / U)
             return shared[key]
 
+        inside_obj: dict[tuple, list] = {}       # (mode, timeout) -> tasks currently inside a block on that shared object
+        abandons: list = []                       # (task running the ["gc","obj",..] event, tasks inside the object at that moment)
         snaps = []
 
         def view():
@@ -439,6 +445,22 @@ def execute(init: dict, programs: list[dict], schedule: list[int], snapshot=True
                             await tx.rollback()
                         # a later set_many of this task belongs to another commit (not another TTL group of this one)
                         sched.boundary.add(tid)
+                    elif op[0] == "gc" and len(op) > 1:
+                        if op[1] != "obj" or len(op) != 4 or op[2] not in MODES:
+                            raise SchedError(f"bad op {op}")
+                        shared_obj = obj_for(op[2], op[3])
+                        fut = loop.create_future()
+
+                        async def abandoned():
+                            async with shared_obj:
+                                await fut
+                        coro = abandoned()
+                        contextvars.Context().run(coro.send, None)      # parked inside its block on T, in a context of its own
+                        abandons.append((tid, sorted(t for t in inside_obj.get((op[2], op[3]), ()) if t != tid)))
+                        try:
+                            contextvars.Context().run(coro.close)       # left outside the context it was entered in
+                        except Exception:       # what the collector would print as "Exception ignored in"
+                            pass
                     elif op[0] == "gc":
                         # an abandoned call of the decorated function (started in its own context, suspended in its
                         # body) is finalised - as the garbage collector would - while *this* task is running
@@ -465,9 +487,11 @@ def execute(init: dict, programs: list[dict], schedule: list[int], snapshot=True
                 elif form == "obj":
                     async with obj_for(mode, timeout) as tx:
                         handles.append(tx)
+                        inside_obj.setdefault((mode, timeout), []).append(tid)
                         try:
                             await run_ops(tree)
                         finally:
+                            inside_obj[(mode, timeout)].remove(tid)
                             handles.pop()
                 elif form != "ctx":
                     raise SchedError(f"bad form {form}")
@@ -511,6 +535,7 @@ def execute(init: dict, programs: list[dict], schedule: list[int], snapshot=True
             "branching": sched.branching,
             "choices": sched.choices,
             "merged_groups": sched.merged_groups,
+            "abandons": abandons,
             "end": round((CLOCK.t - vtime.BASE) * U),
         }
 
